@@ -142,6 +142,8 @@ func (p *VipnodePool) Update(ctx context.Context, sig string, nodeID string, non
 		if errOld := p.verify(sig, "vipnode_update", nodeID, nonce, oldUpdateRequest{req.Peers, req.BlockNumber}); errOld != nil {
 			return nil, err
 		}
+		// The old signature form does not cover PeerInfo, so it must not be acted on.
+		req.PeerInfo = nil
 	}
 
 	node, err := p.Store.GetNode(store.NodeID(nodeID))
